@@ -442,9 +442,18 @@ class Symx:
                 return Integer(0)
             if short == 'exit':
                 return Integer(0)
+        if short in ('min_element', 'max_element') and len(args) == 2:
+            i0 = self.iterator(args[0], st)
+            i1 = self.iterator(args[1], st)
+            if i0 and i1 and i0[0] == i1[0]:
+                return Function('ITER_' + ('MIN' if short == 'min_element' else 'MAX'))(Symbol('arr:' + i0[0]), i0[1], i1[1])
         if kind == 'method':
             return self.method_call(e, st)
         if kind == 'op':
+            if e.get('op') == '*' and len(args) == 1:
+                v = self.sym_or_name(args[0], st)
+                if isinstance(v, sp.core.function.AppliedUndef) and v.func.__name__ in ('ITER_MIN', 'ITER_MAX'):
+                    return Function(v.func.__name__[5:] + 'EL', real=True)(*v.args)
             return self.op_call(e, st)
         if q == 'libphysica::Sign':
             if len(args) == 1:
@@ -460,6 +469,31 @@ class Symx:
         a = [self.sym_or_name(x, st) for x in args]
         self.havoc_mutrefs(c, args, st)
         return Function(q or 'call', real=True)(*a)
+
+    def iterator(self, e, st):
+        """container iterator expression -> (container name, offset) for begin()+k / end()."""
+        e = strip(e)
+        if e.get('k') == 'Ref':
+            key = self.lv_key(e)
+            v = st.env.get(key) if key is not None else None
+            if isinstance(v, tuple) and len(v) == 3 and v[0] == 'iter':
+                return v[1], v[2]
+            return None
+        if e.get('k') == 'Call' and e.get('kind') == 'method' and e['callee']['name'] in ('begin', 'end', 'cbegin', 'cend'):
+            name = self.lv_name(e['obj'])
+            if e['callee']['name'] in ('begin', 'cbegin'):
+                return name, Integer(0)
+            key = self.lv_key(e['obj']) if strip(e['obj'])['k'] in ('Ref', 'Member') else None
+            arr = st.env.get(key) if key is not None else None
+            if isinstance(arr, Arr) and arr.length is not None:
+                return name, arr.length
+            return name, Symbol('len(%s)' % name, integer=True, nonnegative=True)
+        if e.get('k') == 'Call' and e.get('kind') == 'op' and e.get('op') in ('+', '-') and len(e['args']) == 2:
+            b = self.iterator(e['args'][0], st)
+            if b:
+                off = self.sym(e['args'][1], st)
+                return b[0], b[1] + off if e['op'] == '+' else b[1] - off
+        return None
 
     def sym_or_name(self, x, st):
         try:
@@ -822,6 +856,10 @@ class Symx:
             for st in states:
                 for d in s['decls']:
                     if d.get('init') is not None:
+                        it = self.iterator(d['init'], st) if 'iterator' in d.get('ty', '') else None
+                        if it:
+                            st.env[d['id']] = ('iter', it[0], it[1])
+                            continue
                         v = self.rvalue(d['init'], st)
                         if isinstance(v, Arr):
                             v.name = d['name']
